@@ -12,7 +12,8 @@ REQUIRED_MONITORS = ["explicit-order@SSI_mpe", "explicit-order@pLSCF_mpe", "find
 ALL_STATES = ["order:int", "order:list", "mode missing at the order", "nearest pole belongs to another requested mode", "all found", "none found",
               "with covariances", "find_min: qualifying order exists", "find_min: two stable poles in one band at a lower order",
               "find_min: f>1Hz pole between absolute and relative band", "f<1Hz requests"]
-REQUIRED_STATES = ["nearest pole in an rtol^2 sliver at a band edge", "two retained poles in the band, the farther one in an earlier row", "successive mpe calls with different rtol", "order:int", "order:list", "mode missing at the order", "nearest pole belongs to another requested mode", "with covariances",
+REQUIRED_STATES = ["class-level extraction: empty pole slot above the selected poles", "find_min: unstable pole nearer to the request than the stable one",
+                   "nearest pole in an rtol^2 sliver at a band edge", "two retained poles in the band, the farther one in an earlier row", "successive mpe calls with different rtol", "order:int", "order:list", "mode missing at the order", "nearest pole belongs to another requested mode", "with covariances",
                    "find_min: qualifying order exists", "find_min: two stable poles in one band at a lower order",
                    "find_min: f>1Hz pole between absolute and relative band"]
 RULE = ("structured pole tables (modes x orders, modes missing at some orders, spurious poles, NaN rows, per-column row shuffles) in which every "
@@ -210,6 +211,9 @@ def run_explicit(ctx, rng):
     kw = dict(Fn_cov=covs[0].copy(), Xi_cov=covs[1].copy(), Phi_cov=covs[2].copy()) if with_cov else {}
     ret = ssi.SSI_mpe(list(req), Fn, Xi, Phi, order_arg, Lab=None, rtol=rtol, **kw)
     r1 = judge_explicit(ctx, "explicit-order@SSI_mpe", "ssi_explicit", req, orders, order_arg, rtol, tabs, covs if with_cov else None, ret)
+    if rng.random() < 0.4:
+        t3, c3, ret3 = through_class(ctx, rng, "explicit-order@SSIcov.mpe(synthetic tables)", "ssi_cls_synth", req, orders, order_arg, rtol, Fn, Xi, Phi, Lab, covs)
+        judge_explicit(ctx, "explicit-order@SSIcov.mpe(synthetic tables)", "ssi_cls_synth_explicit", req, orders, order_arg, rtol, t3, c3, ret3)
     # pLSCF
     ret2 = plscf.pLSCF_mpe(list(req), Fn, Xi, Phi, order_arg, Lab=None, rtol=rtol)
     r2 = judge_explicit(ctx, "explicit-order@pLSCF_mpe", "plscf_explicit", req, orders, order_arg, rtol, tabs, None, tuple(ret2) + (None, None, None))
@@ -231,6 +235,29 @@ def run_explicit(ctx, rng):
         ctx.nontrivial(("explicit", probes.sha(np.nan_to_num(Fn))[:10], tuple(orders), rtol))
     ctx.sample({"entry": "ssi.SSI_mpe / plscf.pLSCF_mpe explicit order", "modes": np.round(modes, 3).tolist(), "requests": np.round(req, 4).tolist(),
                 "order": order_arg, "rtol": rtol, "modes present per order": present.astype(int).tolist()[:3], "covariances": with_cov})
+
+
+def through_class(ctx, rng, tag, sigp, req, orders, order_arg, rtol, Fn, Xi, Phi, Lab, covs, allow_pad=True):
+    """the same request through SSIcov.mpe on a result object holding the tables (with covariance tables); a whole-NaN row is put on top
+    of every table half of the time (pole slots that no order fills are legal)."""
+    from pyoma2.algorithms import SSIcov
+    from pyoma2.algorithms.data.result import SSIResult
+
+    if allow_pad and rng.random() < 0.5:
+        pad = lambda T: np.concatenate([np.full((1,) + T.shape[1:], np.nan if T.dtype.kind in "fc" else 0, dtype=T.dtype), T], axis=0)  # noqa: E731
+        Fn, Xi, Phi, Lab = pad(Fn), pad(Xi), pad(Phi), pad(Lab)
+        covs = tuple(pad(c) for c in covs)
+        ctx.state("class-level extraction: empty pole slot above the selected poles")
+    a = SSIcov(name="synthetic", br=3, ordmax=Fn.shape[1] - 1)
+    a.fs, a.dt = 100.0, 0.01
+    a.data = np.zeros((10, Phi.shape[2]))
+    a.result = SSIResult(Fn_poles=Fn.copy(), Xi_poles=Xi.copy(), Phi_poles=Phi.copy(), Lab=Lab.copy(), Lambds=Fn.astype(complex),
+                         Fn_poles_cov=covs[0].copy(), Xi_poles_cov=covs[1].copy(), Phi_poles_cov=covs[2].copy())
+    a.mpe(sel_freq=list(req), order=order_arg, rtol=rtol)
+    r = a.result
+    ret = (r.Fn, r.Xi, r.Phi, r.order_out, r.Fn_cov, r.Xi_cov, r.Phi_cov)
+    ctx.ev(tag)
+    return (Fn, Xi, Phi), covs, ret
 
 
 def run_find_min(ctx, rng):
@@ -293,6 +320,22 @@ def find_min_one(ctx, rng, name):
                 two_in_band = True
                 break
 
+    if rng.random() < 0.4:
+        # an UNSTABLE pole closer to the request than the stable in-band one: the stable pole is still the one to return, whole
+        k = int(rng.choice(pick))
+        f = modes[k]
+        for o in range(1, no):
+            free = np.where(~np.isfinite(Fn[:, o]))[0]
+            has = np.where((owner[:, o] == k) & (Lab[:, o] == 1) & np.isfinite(Fn[:, o]))[0]
+            if len(free) and len(has) and Fn[has[0], o] != f:
+                r = free[-1]
+                Fn[r, o] = f + 0.4 * (Fn[has[0], o] - f)
+                Xi[r, o] = 0.7 + o * 1e-3
+                Phi[r, o] = [-2, o, r]
+                Lab[r, o] = 0
+                owner[r, o] = -5
+                ctx.state("find_min: unstable pole nearer to the request than the stable one")
+
     def expected(band):
         for o in range(no):
             rows = []
@@ -317,6 +360,11 @@ def find_min_one(ctx, rng, name):
         kw = dict(Fn_cov=covs[0], Xi_cov=covs[1], Phi_cov=covs[2]) if with_cov else {}
         ret = ssi.SSI_mpe(list(req), Fn, Xi, Phi, "find_min", Lab=Lab, rtol=rtol, **kw)
         tag, sigp = "find_min@SSI_mpe", "ssi_find_min"
+        if rng.random() < 0.3:
+            # the same search through the class (result object holding the tables and their covariances)
+            _, _, ret = through_class(ctx, rng, "find_min@SSIcov.mpe(synthetic tables)", "ssi_cls_synth", req, None, "find_min", rtol, Fn, Xi, Phi, Lab, covs, allow_pad=False)
+            with_cov = True
+            tag, sigp = "find_min@SSIcov.mpe(synthetic tables)", "ssi_cls_synth_find_min"
     else:
         o_exp, rows = expected(lambda f: min(rtol * f, deltaf))
         ret = tuple(plscf.pLSCF_mpe(list(req), Fn, Xi, Phi, "find_min", Lab=Lab, rtol=rtol)) + (None, None, None)
